@@ -507,6 +507,11 @@ class StateTransactionBase(_TransactionBase):
         descriptor_handle = entity.state.DescriptorHandle
         old_state = self._mdib.states.descriptor_handle.get_one(entity.handle, allow_none=True)
         tmp_state = copy.deepcopy(entity.state)
+        # the state must refer to the descriptor object of the mdib: the entity's private descriptor copy can be older than
+        # the mdib (other parent / other source mds after the handle was deleted and created again)
+        mdib_descriptor = self._mdib.descriptions.handle.get_one(descriptor_handle, allow_none=True)
+        if mdib_descriptor is not None:
+            tmp_state.descriptor_container = mdib_descriptor
         if adjust_version_counter:
             descriptor_container = self._mdib.descriptions.handle.get_one(descriptor_handle)
             tmp_state.DescriptorVersion = descriptor_container.DescriptorVersion
